@@ -208,6 +208,7 @@ PROPS.update({
         gens=[('comp', 'small', 2500, 40000, 10), ('comp', 'small', 150, 3000, 24), ('comp', 'small', 10, 150, 40)],
         spec_fields=[r'ok\.cc', r'ok\.wcc', r'ok\.scc', r'ok\.ncc', r'ok\.num', r'ok\.bfs', r'ok\.eq'],
         model_fields=[r'build', r'cc', r'wcc', r'scc', r'ncc', r'num', r'eq'],
+        impl_checks=[('bfssame', '1')],
         nontrivial=lambda req, I: any(',' in I.get(f, '') for f in ('cc', 'wcc', 'scc')),
         hist=lambda req, I: graph_hist(req, I) + ['k.' + req.split()[-1]] + ['ncomp.%d' % (len(I.get(f, '').split())) for f in ('cc', 'wcc') if not I.get(f, 'E').startswith('E')],
         rule='random graphs of all 8 kinds with 0..10 nodes at densities 4-20% (many small components, isolated nodes, cycles, nested SCCs), '
@@ -275,11 +276,12 @@ PROPS.update({
         translators=['formulas'],
         thorough_scale=2,
         gens=[('louv', 'ties', 1200, 20000, 12), ('louv', 'random', 600, 10000, 9), ('louv', 'nearties', 300, 5000, 0), ('louv', 'inexact', 600, 10000, 10), ('par', 'some', 12, 60, 0),
-              ('gnp', 'small', 300, 5000, 40), ('gnp', 'large', 20, 200, 300), ('gnp', 'huge', 8, 80, 0)],
-        spec_fields=[], model_fields=[r'build'], impl_checks=[('same', '1'), ('par', '1')],
+              ('gnp', 'small', 300, 5000, 40), ('gnp', 'large', 20, 200, 300), ('gnp', 'huge', 8, 80, 0),
+              ('comp', 'small', 400, 6000, 12), ('par', 'big', 1, 8, 0)],
+        spec_fields=[], model_fields=[r'build'], impl_checks=[('same', '1'), ('par', '1'), ('bfssame', '1')],
         extra_checks=['fresh_process_identical'],
-        nontrivial=lambda req, I: True if req.startswith('par') else (I.get('edges', '.') not in ('.', 'E3') or I.get('m', '0') != '0') if req.startswith('gnp') else ',' in I.get('parts', ''),
-        hist=lambda req, I: ['family.par'] if req.startswith('par') else gen_hist(req, I) if req.startswith('gnp') else graph_hist(req, I) + ['levels.%d' % len(I.get('parts', '').split())],
+        nontrivial=lambda req, I: True if req.startswith(('par', 'comp')) else (I.get('edges', '.') not in ('.', 'E3') or I.get('m', '0') != '0') if req.startswith('gnp') else ',' in I.get('parts', ''),
+        hist=lambda req, I: ['family.' + req.split()[0]] if req.startswith(('par', 'comp')) else gen_hist(req, I) if req.startswith('gnp') else graph_hist(req, I) + ['levels.%d' % len(I.get('parts', '').split())],
         rule=LOUV_RULE + '; profile "nearties": a hub joined to 3-5 identical cliques by edges whose weights differ in the tenth significant digit, or are all of the order 1e-9 (gains neither equal nor clearly apart); profile "inexact": random and tie-rich graphs with decimal weights k/3, k/7, k/10, k/100, k·1e-10 (sums not exact in f64); each case is run twice in one process, in rayon pools of 1 and 4 threads, and again in a second process; fast_gnp_random_graph with a seed: 0..300 nodes called twice and in pools of 1 and 4 workers, 600..2640 nodes (far above any size threshold) called twice and in pools of 1, 2, 4 and 16 workers',
         assumptions=COMMON_ASSUME[:2] + ['the std hasher (RandomState) is library code: its per-instance keying is exercised by repeated calls '
                                          'and fresh processes, not modelled'],
@@ -432,11 +434,11 @@ PROPS.update({
         extra_modules=['GraphrsModel.Props.C07Model'],
         shrink_seconds=60, shrink_candidates=12,
         thorough_scale=1,
-        gens=[('par', 'some', 40, 0, 0), ('par', 'all', 0, 120, 0)],
+        gens=[('par', 'some', 40, 0, 0), ('par', 'all', 0, 120, 0), ('par', 'big', 1, 6, 0)],
         translators=['parallel_sites', 'constants'],
         spec_fields=[], model_fields=[r'build'], impl_checks=[('par', '1')],
         nontrivial=lambda req, I: I.get('par') is not None and int(I.get('fplen', '0')) > 1000,
-        hist=lambda req, I: graph_hist(req, I) + ['weighted' + req.split()[-3 - int(req.split()[-1 - 0] and 0)] if False else 'pools.' + str(len(req.split()) and req.split().count(' '))][:3],
+        hist=lambda req, I: ['family.parbig', 'parbig.dir' + req.split()[3], 'parbig.w' + req.split()[4]] if req.startswith('parbig') else graph_hist(req, I) + ['pools.0'],
         rule='random graphs of 21..60 nodes (all kinds, sparse) weighted and unweighted; all_pairs (with and without paths), multi_source '
              '(cutoff, first_only), get_all_shortest_paths_involving, betweenness (raw, normalized), closeness (plain, wf) inside '
              'ThreadPoolBuilder pools of 2,3,4,7,16 threads (thorough: every size 1..=16, three repeats) and from six concurrent reader '
@@ -447,7 +449,7 @@ PROPS.update({
         trusted_extra=['tools/extract.py parallel_sites, constants (syntactic re-check of the modelling assumption)'],
     ),
 })
-PROPS['C07']['hist'] = lambda req, I: graph_hist(req, I)
+PROPS['C07']['hist'] = lambda req, I: ['family.parbig', 'parbig.dir' + req.split()[3], 'parbig.w' + req.split()[4]] if req.startswith('parbig') else graph_hist(req, I)
 
 
 def degen_custom(req, I):
